@@ -22,13 +22,13 @@ EXTENDS Naturals, Integers, Sequences, Text, BigNat, Sexp
 NoTail == [t |-> "none"]
 
 \* the four unquoted Rust expressions available in the generated code and their values:
-\*   n = 42i32        s = "str"        (n + 1)        v = Value::symbol("sym")
+\*   n = 42i32        s = "str"        (n + 1)        (v.clone()) with v = Value::symbol("sym")
 UnqValue(w) ==
   CASE w = "n" -> IntV(FALSE, <<4, 2>>) [] w = "s" -> Str(<<115, 116, 114>>)
     [] w = "e" -> IntV(FALSE, <<4, 3>>) [] OTHER -> Sym(<<115, 121, 109>>)
 UnqSource(w) ==
   CASE w = "n" -> <<COMMA, 110>> [] w = "s" -> <<COMMA, 115>>
-    [] w = "e" -> <<COMMA, LP, 110, SP, PLUS, SP, 49, RP>> [] OTHER -> <<COMMA, 118>>
+    [] w = "e" -> <<COMMA, LP, 110, SP, PLUS, SP, 49, RP>> [] OTHER -> <<COMMA, LP, 118, DOT, 99, 108, 111, 110, 101, LP, RP, RP>>
 UnqRender(w) ==
   CASE w = "n" -> <<52, 50>> [] w = "s" -> <<DQ, 115, 116, 114, DQ>>
     [] w = "e" -> <<52, 51>> [] OTHER -> <<115, 121, 109>>
@@ -124,6 +124,8 @@ CONSTANTS MinusFusion,     \* TRUE: "-" before a literal token negates it even w
           ColonFusion,     \* TRUE: ":" before an identifier or string token makes a keyword even when they are apart
           FuseAnyLiteral,  \* TRUE: the minus also fuses with string and character literals (Value::from(-"a") does not
                            \* compile) and the colon with number and character literals ("expected string literal")
+          RawStringNames,  \* TRUE: the name given as a string literal (#"..", #:"..", : "..") is the literal's source text
+                           \* between the quotes, escapes not interpreted (parser.rs string_literal)
           DotAlways        \* TRUE: every "." at the start of a list element is the pair dot, also the first of "..."
 
 Punct(c, joint, adj) == [k |-> "punct", c |-> c, joint |-> joint, adj |-> adj]
@@ -162,6 +164,12 @@ Tokenize(p) ==
 IdentStart == {BANG, DOLLAR, PCT, AMP, STAR, PLUS, MINUS, DOT, SLASH, COLON, LT, EQ, GT, QM, AT, CARET, USC, TILDE}
 IdentCont == IdentStart \ {USC}
 
+\* the name a string literal gives to a symbol or keyword
+NameOfLit(x) ==
+  IF RawStringNames
+    THEN Flatten([i \in DOMAIN x |-> CASE x[i] = DQ -> <<BSL, DQ>> [] x[i] = BSL -> <<BSL, BSL>> [] x[i] = 10 -> <<BSL, 110>> [] OTHER -> <<x[i]>>])
+    ELSE x
+
 MOk(v, i) == [ok |-> TRUE, v |-> v, i |-> i]
 MErr(i) == [ok |-> FALSE, v |-> Nil, i |-> i]
 
@@ -193,7 +201,7 @@ MParse(ts, i) ==
                        ELSE MErr(i))                           \* the generated Rust does not compile
              ELSE IF t.c = COLON /\ more /\ ts[i + 1].k = "lit" /\ (ColonFusion \/ t.adj)
                      /\ (FuseAnyLiteral \/ ts[i + 1].lex.t = "str") THEN
-                    (IF ts[i + 1].lex.t = "str" THEN MOk(Kw(ts[i + 1].lex.s), i + 2) ELSE MErr(i))   \* "expected string literal"
+                    (IF ts[i + 1].lex.t = "str" THEN MOk(Kw(NameOfLit(ts[i + 1].lex.s)), i + 2) ELSE MErr(i))   \* "expected string literal"
              ELSE IF t.c = COLON /\ more /\ ts[i + 1].k = "ident" /\ (ColonFusion \/ t.adj) THEN
                     MOk(Kw(ts[i + 1].s), i + 2)
              ELSE MOk(Sym(<<t.c>>), i + 1))
@@ -210,9 +218,9 @@ MOcto(ts, i) ==
          (IF t.c # COLON THEN MErr(i)
           ELSE IF i + 1 > Len(ts) THEN MErr(i)
           ELSE IF ts[i + 1].k = "lit" THEN
-                 (IF ts[i + 1].lex.t = "str" THEN MOk(Kw(ts[i + 1].lex.s), i + 2) ELSE MErr(i))
+                 (IF ts[i + 1].lex.t = "str" THEN MOk(Kw(NameOfLit(ts[i + 1].lex.s)), i + 2) ELSE MErr(i))
           ELSE LET r == MIdent(ts, i + 1, <<>>) IN MOk(Kw(r[1]), r[2]))
-    [] t.k = "lit" -> IF t.lex.t = "str" THEN MOk(Sym(t.lex.s), i + 1) ELSE MErr(i)
+    [] t.k = "lit" -> IF t.lex.t = "str" THEN MOk(Sym(NameOfLit(t.lex.s)), i + 1) ELSE MErr(i)
     [] t.k = "ident" ->
          (IF t.s = <<116>> THEN MOk(Bool(TRUE), i + 1)
           ELSE IF t.s = <<102>> THEN MOk(Bool(FALSE), i + 1)
